@@ -5,6 +5,7 @@ package main
 
 import (
 	"fmt"
+	"log/slog"
 	"sort"
 	"strconv"
 	"strings"
@@ -315,6 +316,16 @@ func main() {
 	rd := r.Fork()
 	for i := 0; i < f.N; i++ {
 		genDisp(o, rd)
+	}
+	// ConfigChanged of a live coordinator with shard deletions completing inside its compare-and-set window
+	slog.SetDefault(slog.New(hookHandler{}))
+	rx := r.Fork()
+	runCas(o, rx, 1, 0, 1, true)
+	runCas(o, rx, 3, 1, 2, true)
+	runCas(o, rx, 3, 0, 3, true)
+	runCas(o, rx, 2, 0, 1, true)
+	for i := 0; i < f.N/6; i++ {
+		genCas(o, rx)
 	}
 	// restarts of the real coordinator inside status histories
 	for _, c := range fixedCoordCases {
